@@ -210,6 +210,8 @@ class Builder(object):
                 v = Var(0, a.dims, a.tracked, a.pos, a.exact, a.mag)
                 v.is_op = a.is_op
                 v.alias = True
+                if hasattr(a, "node"):
+                    v.node = a.node
                 self.emit(("op", ("sum", 0), [a.idx]), v)
                 return v
             n = prod(a.dims[len(a.dims) - k:])
